@@ -18,6 +18,8 @@ Pipes(h) == {h[i].p : i \in {j \in 1..Len(h) : h[j].ev = "exec"}}
 
 C20_Clauses(cfg, h) ==
   LET wms  == cfg.w                     \* configured wait in milliseconds
+      \* ... in microseconds (scenarios with waits below a millisecond give them in `wus`)
+      wus  == IF "wus" \in DOMAIN cfg /\ cfg.wus > 0 THEN cfg.wus ELSE cfg.w * 1000
       rets == SelectSeq(h, LAMBDA e : e.ev = "runret")
       cans == SelectSeq(h, LAMBDA e : e.ev = "cancel")
       preps == SelectSeq(h, LAMBDA e : e.ev = "prep")
@@ -30,7 +32,7 @@ C20_Clauses(cfg, h) ==
   IN [
    \* (T1) at least w elapses between the end of a failed attempt and the start of the next one
    waitHonoured |-> \A p \in Pipes(h) : LET a == Attempts(h, p) IN
-                       \A k \in 1..(Len(a) - 1) : (a[k+1].t0 - a[k].t1) \div 1000 >= wms,
+                       \A k \in 1..(Len(a) - 1) : (a[k+1].t0 - a[k].t1) >= wus,
    \* (T2) no wait before the first attempt ...
    noWaitBefore |-> cfg.upper => \A p \in Pipes(h) : LET a == Attempts(h, p) IN
                        (preps # <<>> /\ a # <<>> /\ p <= 1) => (a[1].t0 - preps[1].t1) \div 1000 < wms \div 2,
@@ -63,6 +65,13 @@ C02T_Clauses(cfg, h) ==
         LET a == Attempts(h, h[i].p) IN Len(a) = cfg.N /\ \A k \in 1..Len(a) : ~a[k].ok,
     fbAfterBudget     |-> (cfg.fb /\ ~(\E i \in 1..Len(h) : h[i].ev = "cancel") /\ cfg.n = 0) =>
         LET a == Attempts(h, 0) IN (Len(a) = cfg.N /\ \A k \in 1..Len(a) : ~a[k].ok) => \E i \in 1..Len(h) : h[i].ev = "fb" ]
+
+\* C07 on timed runs: every item of a batch gets the retry budget a single node run gets - also under a context that has
+\* a deadline which has not expired (an item whose context was never cancelled makes every attempt of its budget or succeeds)
+C07T_Clauses(cfg, h) ==
+  LET cans == SelectSeq(h, LAMBDA e : e.ev = "cancel")
+  IN [ itemBudgetKept |-> (cfg.n > 0 /\ cans = <<>> /\ ~cfg.stop) => \A p \in Pipes(h) : LET a == Attempts(h, p) IN
+                              a[Len(a)].ok \/ Len(a) = cfg.N ]
 
 \* C05 on timed runs: a cancellation that arrives from outside while the run waits between attempts
 C05T_Clauses(cfg, h) ==
